@@ -284,12 +284,28 @@ fn vfs_read(path: &str) -> Result<Vec<u8>, Box<dyn std::error::Error + Send + Sy
             if p == path {
                 return match c {
                     Some(b) => Ok(b.clone()),
-                    None => Err("unreadable".into()),
+                    None => Err(vfs_error(path, "unreadable")),
                 };
             }
         }
-        Err("not found".into())
+        Err(vfs_error(path, "not found"))
     })
+}
+
+/// The error a failing read reports. What kind of error it is (a plain message, or an `std::io::Error` of one kind or another)
+/// is the reader's business and must not matter to the resolution: the kind is chosen from the path, so that every plan meets
+/// several kinds, identically in every run and build.
+#[cfg(feature = "cfg-alloc")]
+fn vfs_error(path: &str, what: &str) -> Box<dyn std::error::Error + Send + Sync + 'static> {
+    use std::io::{Error, ErrorKind};
+    let h = path.bytes().fold(7u32, |a, b| a.wrapping_mul(31).wrapping_add(b as u32));
+    match h % 5 {
+        0 => what.into(),
+        1 => Box::new(Error::new(ErrorKind::NotFound, what.to_string())),
+        2 => Box::new(Error::new(ErrorKind::PermissionDenied, what.to_string())),
+        3 => Box::new(Error::new(ErrorKind::Other, what.to_string())),
+        _ => Box::new(Error::new(ErrorKind::InvalidInput, what.to_string())),
+    }
 }
 
 /// Local time type of a rendering event: offset only, or offset + DST flag + designation when the event names them.
@@ -498,8 +514,8 @@ fn exec_inner(op: &str, a: &Value, st: &mut State) -> Value {
             }
         }
         "project" => {
-            // source date-time given as (t, ns, type); projected into the current zone
-            let t = w_to_i64(getv(a, "t"));
+            // source date-time given as (t, ns, type) or by its UTC fields; projected into the current zone
+            let t = a.get("t").map(w_to_i64).unwrap_or(0);
             let ns = geti(a, "ns") as u32;
             match gets(a, "via") {
                 "dt" => match mk_type(getv(a, "type")) {
@@ -513,6 +529,14 @@ fn exec_inner(op: &str, a: &Value, st: &mut State) -> Value {
                     Ok(src) => src.project(zone_ref(st)).map(|x| json!({"src": udt_json(&src), "dst": dt_json(&x)})).map(ok).unwrap_or_else(err),
                     Err(_) => json!({ "err": "Construct" }),
                 },
+                // the source is a UTC date-time built from its fields (second 60 possible): the instant is what the fields denote
+                "utcnew" => {
+                    let f = fields(a);
+                    match UtcDateTime::new(f.y, f.mo, f.d, f.h, f.mi, f.s, f.ns) {
+                        Ok(src) => src.project(zone_ref(st)).map(|x| json!({"src": udt_json(&src), "dst": dt_json(&x)})).map(ok).unwrap_or_else(err),
+                        Err(_) => json!({ "err": "Construct" }),
+                    }
+                }
                 _ => json!({"arg": "via"}),
             }
         }
